@@ -32,7 +32,7 @@ type jaValue struct {
 	devAddr    uint32
 	dlSettings byte
 	rxDelay    byte
-	cfKind     int // 0 absent, 1 channels, 2 masks, 3 channels all unused (16 zero bytes), 4 channels with one slot used
+	cfKind     int // 0 absent, 1 channels, 2 masks, 3 channels all unused (16 zero bytes), 4 channels with one slot used, 5 six channel masks (96-channel plan)
 }
 
 // channels are the five frequencies of a channel-frequency CFList of this kind.
@@ -48,6 +48,15 @@ func (j jaValue) channels() [5]uint32 {
 
 var c04CFChannels = [5]uint32{867100000, 867300000, 867500000, 867700000, 867900000}
 var c04CFMasks = []uint16{0xFFFF, 0x0000, 0x00FF}
+var c04CFMasks6 = []uint16{0x00FF, 0x0000, 0x0000, 0x0000, 0x0F00, 0x8001}
+
+// masks are the channel masks of a channel-mask CFList of this kind.
+func (j jaValue) masks() []uint16 {
+	if j.cfKind == 5 {
+		return c04CFMasks6
+	}
+	return c04CFMasks
+}
 
 func (j jaValue) wire() []byte {
 	b := []byte{byte(j.joinNonce), byte(j.joinNonce >> 8), byte(j.joinNonce >> 16), j.netID[2], j.netID[1], j.netID[0],
@@ -59,9 +68,9 @@ func (j jaValue) wire() []byte {
 			b = append(b, byte(v), byte(v>>8), byte(v>>16))
 		}
 		b = append(b, 0)
-	case 2:
+	case 2, 5:
 		cf := make([]byte, 16)
-		for i, m := range c04CFMasks {
+		for i, m := range j.masks() {
 			cf[2*i], cf[2*i+1] = byte(m), byte(m>>8)
 		}
 		cf[15] = 1
@@ -81,9 +90,9 @@ func (j jaValue) lib() *lorawan.JoinAcceptPayload {
 	switch j.cfKind {
 	case 1, 3, 4:
 		p.CFList = &lorawan.CFList{CFListType: lorawan.CFListChannel, Payload: &lorawan.CFListChannelPayload{Channels: j.channels()}}
-	case 2:
+	case 2, 5:
 		var ms []lorawan.ChMask
-		for _, m := range c04CFMasks {
+		for _, m := range j.masks() {
 			var cm lorawan.ChMask
 			for k := 0; k < 16; k++ {
 				cm[k] = m&(1<<uint(k)) != 0
@@ -252,6 +261,7 @@ func runC04(r *engine.Run) {
 	}
 	r.Rule = "E1 products. Uplink: {join-request, rejoin 0, 2, 1} x JoinEUI(3) x DevEUI(3) x nonce/counter(4) x NetID(3) x key(3) plus single-bit walks over every payload and key bit. Join-accept A: JoinReqType(4) x all 256 DLSettings x RXDelay 0..15 x CFList{absent,channels,masks} x key(3). Join-accept B: JoinNonce(4) x NetID(3) x DevAddr(3) x JoinEUI(3) x DevNonce(4) x key(3) x DLSettings{00,80,F5} x CFList(3) x JoinReqType(4). Join-accept C: single-bit walks over every MIC input (type, JoinEUI, DevNonce, key, every payload bit) for OptNeg set and clear. Oracle: RFC 4493 CMAC and AES-ECB written independently (mc/spec/crypto.go). Non-trivial: the MIC was set and compared; distinct by construction."
 	cryptoHistory(r)
+	manyKeysJoin(r)
 	r.Assume("crypto/aes trusted; EUIs are non-palindromic and bytewise distinct so that byte-order errors are visible; value alphabets + complete single-bit walks")
 
 	// ---- uplink join / rejoin
@@ -358,7 +368,7 @@ func runC04(r *engine.Run) {
 	})
 
 	// ---- join-accept A: header-ish fields complete
-	spA := (&engine.Space{}).Dim("dlsettings", 256).Dim("rxdelay", 16).Dim("cflist{absent,channels,masks,all-unused channels,one channel}", 5).Dim("joinReqType", 4).Dim("key", 3)
+	spA := (&engine.Space{}).Dim("dlsettings", 256).Dim("rxdelay", 16).Dim("cflist{absent,channels,masks,all-unused channels,one channel,six masks}", 6).Dim("joinReqType", 4).Dim("key", 3)
 	r.PartDims("joinaccept/A-dlsettings-rxdelay-cflist", spA.Desc(), spA.N(), func(c *engine.Case) {
 		var ch [5]int
 		spA.Decode(c.Index, ch[:])
